@@ -1265,6 +1265,34 @@ class PE:
         raise PEError(f"call of non-callable {f!r}")
 
     def call_closure(self, c: Closure, args, kwargs):
+        # memoising decorators keep their table for the life of the process: modelled per evaluator, keyed on the argument values
+        if c.func is not None and not isinstance(c.node, ast.Lambda) and any(
+                d.split("(")[0].rsplit(".", 1)[-1] in ("lru_cache", "cache") for d in c.func.decorator_names()):
+            try:
+                key = (c.func.qname, repr([self._memo_key(a) for a in args]), repr(sorted((k, self._memo_key(v)) for k, v in kwargs.items())))
+            except Exception:
+                key = None
+            if key is not None:
+                memo = self.__dict__.setdefault("_memo_tables", {})
+                if key in memo:
+                    return memo[key]
+                memo[key] = r = self._call_closure(c, args, kwargs)
+                return r
+        return self._call_closure(c, args, kwargs)
+
+    @staticmethod
+    def _memo_key(v):
+        if isinstance(v, (str, int, bool, Fraction, type(None))):
+            return ("v", repr(v))
+        if isinstance(v, Node):
+            return ("n", v.id)
+        if hasattr(v, "__fspath__") or type(v).__module__.startswith("pathlib") or any(t.__module__.startswith("pathlib") for t in type(v).__mro__):
+            return ("p", str(v))
+        if isinstance(v, (tuple, list)):
+            return ("t", tuple(PE._memo_key(x) for x in v))
+        return ("o", id(v))
+
+    def _call_closure(self, c: Closure, args, kwargs):
         self.depth += 1
         if self.depth > self.max_depth:
             self.depth -= 1
